@@ -166,7 +166,8 @@ def purposeAllowed (o : CliOptions) (u : Spec.Purpose) : Bool :=
   (!o.clientAuth && !o.serverAuth) ||
   (match u with
    | .clientAuth => o.clientAuth
-   | .serverAuth => o.serverAuth)
+   | .serverAuth => o.serverAuth
+   | _ => false)
 
 /-- **the written pair validates**: an RFC 5280 §6.1 validator, run on what the two certificates
     the tool writes decode to (C02), with the CA as trust anchor, accepts the end-entity
